@@ -101,6 +101,11 @@ type c10Env struct {
 	def   interface{}
 
 	lastAnnounced bool // set by applyEvents: a create event arrived while the client did not hold the resource
+	// fault injection "a commit that fails" (badgerstore only)
+	canConflict      bool
+	conflictFor      string
+	conflictVal      interface{}
+	conflictInjected bool
 	initDone      bool // the one Init of this environment's store has been made
 }
 
@@ -131,10 +136,25 @@ func newC10Env(c *core.Ctx, cfg c10Cfg) (*c10Env, error) {
 		if err != nil {
 			return nil, err
 		}
-		bs := badgerstore.NewStore(db).SetPrefix(fmt.Sprintf("c10-%d", time.Now().UnixNano()))
+		pfx := fmt.Sprintf("c10-%d", time.Now().UnixNano())
+		bs := badgerstore.NewStore(db).SetPrefix(pfx)
+		// st2: a second Store object over the same keys, used to make a commit of bs fail (it
+		// rewrites the id, with the value given, from a BeforeChange listener of bs)
+		st2 := badgerstore.NewStore(db).SetPrefix(pfx)
 		if cfg.Type == "collection" {
 			bs.SetType([]interface{}(nil))
+			st2.SetType([]interface{}(nil))
 		}
+		bs.BeforeChange(func(id string, before, after interface{}) error {
+			if e.conflictFor == id {
+				e.conflictFor = ""
+				wt2 := st2.Write(id)
+				e.conflictInjected = wt2.Update(e.conflictVal) == nil
+				wt2.Close()
+			}
+			return nil
+		})
+		e.canConflict = true
 		e.st = bs
 	case "mock-wraperr":
 		// a store that reports not-found and duplicate wrapped in its own errors
@@ -556,6 +576,47 @@ func (e *c10Env) oneCase(name string, before, after interface{}, tag string) boo
 			c.Violation("C10/event-for-refused-mutation:"+sigCfg, fmt.Sprintf("%s failed (%v) but events %v were published on %s", what, rerr, evs2, rid), d2)
 		case ffound2 != ffound || canon(fresh2) != canon(fresh):
 			c.Violation("C10/refused-mutation-changed-resource:"+sigCfg, fmt.Sprintf("%s failed (%v) but a fresh get of %s went from %s to %s", what, rerr, rid, canon(fresh), canon(fresh2)), d2)
+		}
+	}
+	// an update whose commit fails (another transaction rewrote the same value in between): the
+	// stored value is what it was, so nothing is published and a fresh get is unchanged
+	if e.canConflict && after != nil {
+		outer := before
+		if outer == nil || canon(outer) == canon(after) {
+			outer = c10Perturb(newRand(int64(len(canon(after)))), after, e.cfg)
+		}
+		if outer != nil && canon(outer) != canon(after) {
+			pos3 := e.rig.C.Len()
+			e.conflictFor, e.conflictVal, e.conflictInjected = storeID, after, false
+			uerr := e.guarded(func() error {
+				wt := e.st.Write(storeID)
+				defer wt.Close()
+				return wt.Update(outer)
+			})
+			e.conflictFor = ""
+			if uerr == errStoreBlocked {
+				c.Inconclusive("mutation blocked: " + uerr.Error())
+				return false
+			}
+			if e.conflictInjected && uerr != nil {
+				c.Obs("updates_failing_at_commit", 1)
+				d3 := copyDesc(desc)
+				d3["failed_update_to"], d3["update_error"] = outer, uerr.Error()
+				_, _, evs3 := e.applyEvents(e.rig.C.Since(pos3), rid, fresh, ffound, d3)
+				fresh3, ffound3, ok := e.get(rid)
+				if !ok {
+					return false
+				}
+				switch {
+				case len(evs3) > 0:
+					c.Violation("C10/event-for-failed-update:"+sigCfg, fmt.Sprintf("an Update of %s failed at commit (%v) but events %v were published on %s", storeID, uerr, evs3, rid), d3)
+				case ffound3 != ffound || canon(fresh3) != canon(fresh):
+					c.Violation("C10/failed-update-changed-resource:"+sigCfg, fmt.Sprintf("an Update of %s failed at commit (%v) but a fresh get of %s went from %s to %s", storeID, uerr, rid, canon(fresh), canon(fresh3)), d3)
+				}
+			} else if uerr == nil {
+				// no conflict produced: the update took place; continue from there
+				after = outer
+			}
 		}
 	}
 	// clean up
